@@ -8,7 +8,7 @@ LEVEL_TEXT = ("theorems about a hand-written executable Gallina model of the cra
 NOTE = ("trusted: Coq kernel + VM; the Rust->Gallina transcription (sampled by the correspondence, exhaustively on finite "
         "sub-domains); extraction (ExtrOcamlBasic only) + OCaml glue; Rust harness printer; nom/heapless/core semantics as modelled")
 claimed = {
- 'C04': ('layout theorems (Coq) + differential correspondence', '6 C04', 'per type the decoded message equals the ITU layout function of the payload bits (types 5, 15, 24 by correspondence only so far)'),
+ 'C04': ('layout theorems (Coq) + differential correspondence', '6 C04', 'per type the decoded message equals the ITU layout function of the payload bits (type 15: its three legal forms)'),
  'C09': ('dispatch theorem (Coq, 64-way case split) + differential correspondence', '6 C09', ''),
  'C02': ('grammar/checksum theorems (Coq) + differential correspondence on outcome and checksum values', '6 C02', ''),
  'C06': ('invariant of a ghost-instrumented state machine by induction over histories (Coq) + exhaustive short histories and random long ones against the implementation', '6 C06', ''),
@@ -23,6 +23,10 @@ claimed = {
  'C13': ('trim/character-table theorems (Coq) + one-hot sweeps and structured texts against the implementation', '6 C13', ''),
  'C15': ('data = input bytes after the header, for every length (Coq) + every payload length 0..125 in three builds', '6 C15', ''),
  'C16': ('layout theorems for the 19-bit state per type; type 9: as-is pinned, refuted on a witness, proved for the repaired model (Coq) + three-way correspondence; known finding', '6 C16', 'type 9 violates the property on the unchanged tree: recorded as a known finding'),
+ 'C05': ('in-order reassembly theorem from any state for any n >= 2 (Coq, induction over the fragment list) + groups of 2..12 fragments under five kinds of prior history with interleaved lines and the Option/Result conversions', '6 C05', ''),
+ 'C14': ('per-type length thresholds and element counts as functions of the number of bits present (Coq) + every type x every byte length', '6 C14', 'type 15: theorems for the three legal forms and the mandatory part; other lengths by correspondence only'),
+ 'C18': ('std = alloc by computation; no-alloc refines std up to Nmea rejection at message, unarmor, sentence and step level (Coq) + three (thorough: six) builds run on the other properties\' streams and capacity boundaries', '6 C18', 'std-vs-alloc Rust builds are tied by correspondence, not proof'),
+ 'C20': ('theorems about the CLI loop as a function of stdin bytes (Coq) + the real binary run through pipes, compared record by record with the model and with the library in process', '6 C20', 'partial for the runtime: read errors, closed stdout, exit status are observed on the binary, not modelled'),
  'C17': ('state-transparency theorems lifted to histories (Coq) + metamorphic insert/remove runs and two-parser interleavings', '6 C17', 'independence of parser instances is validated, not proved'),
 }
 pending = {}
